@@ -1,4 +1,4 @@
-import FluteModel.Lemmas.SchedWaitLift
+import FluteModel.Lemmas.SchedRRLift
 /-
   C13 - Scheduling: FIFO admission, multiplex bound (strict priority and round robin: see below).
   Interleave window (`open blocks ≤ interleave_blocks`, opened in increasing SBN) is a property of one
@@ -22,6 +22,32 @@ theorem fifo_admission (s : State) (prio now : Nat) (ticks : List (Nat × Nat)) 
     simp only [Prod.mk.injEq, Option.some.injEq] at h
     obtain ⟨_, rfl⟩ := h
     exact findNext_spec s prio now s.queue t' hf
+
+/-- FIFO over whole histories (first transfers): after every operation history, when `get_next_file_transfer`
+    starts object `b` for its first transfer while an object `a` that was ADDED EARLIER (`a < b`: the n-th
+    `add_object` of a history carries TOI n) is still waiting and has not completed a transfer either, then `a` was
+    not eligible at that moment (other queue, unpublished, before its start time, ...).  So within a queue first
+    transfers start in the order of addition; repeated transfers are requeued at the tail (`fifo_requeue_at_tail`),
+    behind later additions.  (`fresh s t`: `t`'s total transfer counter is 0.) -/
+theorem fifo_over_histories (cfg : Cfg) (tbl : List Nat) (ops : List Op) (prio now : Nat) (ticks : List (Nat × Nat))
+    (s' : State) (a b : Nat)
+    (h : getNextFile (run (init cfg tbl) ops) prio now ticks = (s', some b))
+    (ha : a ∈ (run (init cfg tbl) ops).queue) (hab : a < b)
+    (hfa : fresh (run (init cfg tbl) ops) a = true) (hfb : fresh (run (init cfg tbl) ops) b = true) :
+    ∀ f, getF (run (init cfg tbl) ops).objs a = some f →
+      shouldTransferNow f prio (run (init cfg tbl) ops).cfg.mode now = false := by
+  have hs := sortedq_run cfg tbl ops
+  generalize run (init cfg tbl) ops = s at *
+  obtain ⟨pre, post, e, hpre, _⟩ := fifo_admission s prio now ticks s' b h
+  rw [e] at ha hs
+  rcases List.mem_append.mp ha with hm | hm
+  · exact hpre a hm
+  · rcases List.mem_cons.mp hm with hm | hm
+    · omega
+    · exfalso
+      rw [List.pairwise_append] at hs
+      have := (List.pairwise_cons.mp hs.2.1).1 a hm hfb hfa
+      omega
 
 /-- the waiting queue is in insertion order: `add_object` appends at the tail -/
 theorem fifo_add_at_tail (s : State) (a : AddArgs) (s' : State) (toi : Nat)
@@ -140,6 +166,19 @@ theorem strict_priority (cfg : Cfg) (tbl : List Nat) (ops : List Op) (pre post :
   · exact strict_priority_in_progress cfg tbl ops pre post q j c f now ticks hsorted hsess h1 h2 h3 h4 h5
   · exact strict_priority_waiting cfg tbl ops pre post q j t now ticks hsorted hsess h1 h2
 
+/-- Work conservation (contrapositive of `strict_priority`, the liveness-flavoured reading): after every operation
+    history, `read(now)` returns `None` ONLY IF no priority queue has anything ready at `now` - every transfer in a
+    slot is held back (pacing gate closed, stopped, or drained), and a waiting object that `should_transfer_now`
+    accepts exists only for queues all of whose slots are occupied.  Together with C12 `read_terminates` (reads at one
+    instant reach `None`): polling at an instant until `None` sends everything that can be sent at that instant. -/
+theorem idle_only_when_nothing_ready (cfg : Cfg) (tbl : List Nat) (ops : List Op) (pre post : List QSess) (q : QSess)
+    (now : Nat) (ticks : List (Nat × Nat))
+    (hsorted : (cfg.queues.map (fun x => x.1)).Pairwise (fun a b => a < b))
+    (hsess : (run (init cfg tbl) ops).sessions = pre ++ q :: post)
+    (hnone : (read (run (init cfg tbl) ops) now ticks).2 = Out.none) :
+    ¬ Ready (run (init cfg tbl) ops) q now :=
+  fun hr => (strict_priority cfg tbl ops pre post q now ticks hsorted hsess hr).1 hnone
+
 /-- Round robin inside one priority queue, for one call of `read_priority_queue` (`readQueue`, the function `read`
     runs on every queue, with `steps = number of slots`): let slot `j` hold a transfer `c` in progress whose next
     packet is due at `now` (pacing gate open, encoder neither drained nor stopped; the other slots hold other
@@ -148,10 +187,8 @@ theorem strict_priority (cfg : Cfg) (tbl : List Nat) (ops : List Op) (pre post :
     (2) slot `j` still holds `c` with the same encoder state and (3) `c`'s object is untouched (same `TransferInfo`,
     so it is still due at `now`).  Iterating: a due slot is served after at most `n - 1` packets of its peers, and a
     slot never emits twice while a due peer waits - the slots alternate.
-    PARTIAL: stated for the queue-level function; the lift to two consecutive `read`s (where queues of higher
-    priority and the FDT session may interpose) is not formalised - the trace-level clause is checked by the
-    engine's oracle `C13:round-robin`. -/
-theorem round_robin_partial (s : State) (q : QSess) (j : Nat) (c : Cur) (f : FileDesc) (now : Nat)
+    (Queue-level mechanism; `round_robin_partial` is the same statement on `Sender::read`.) -/
+theorem round_robin_queue (s : State) (q : QSess) (j : Nat) (c : Cur) (f : FileDesc) (now : Nat)
     (ticks : List (Nat × Nat)) (hidx : q.index < q.slots.length)
     (hjs : q.slots[j]? = some (some c)) (hf : getF s.objs c.key = some f) (htr : f.info.transferring = true)
     (hoth : ∀ i c0, i ≠ j → q.slots[i]? = some (some c0) → c0.key ≠ c.key)
@@ -172,6 +209,34 @@ theorem round_robin_partial (s : State) (q : QSess) (j : Nat) (c : Cur) (f : Fil
   · exact Or.inl h
   · obtain ⟨f', e1, e2, e3, _⟩ := h4.obj
     exact Or.inr ⟨h1, h2, h3, f', e1, e2, e3⟩
+
+/-- Round robin on `Sender::read`, after every operation history: let slot `j` of priority queue `q` hold a transfer
+    `c` whose next packet is due at `now`.  If `read(now)` returns an object packet, then it is (1) a packet of a
+    queue polled before `q` (higher priority), or (2) `c`'s packet, or (3) the packet of a peer slot of `q` polled
+    before `j` - and then, in the state AFTER the call, `q` (same position in the session list) has its round-robin
+    index strictly closer to `j` (cyclic distance `rrDist`), slot `j` still holds `c` with the same encoder state, and
+    `c`'s object is untouched (same `TransferInfo`: still due at `now` and at any later instant).  As the distance is
+    `< n` and strictly decreases with every packet of `q` that is not `c`'s, the due slot is served after at most
+    `n - 1` packets of its peers, and no slot emits twice while a due peer waits: the slots alternate.
+    PARTIAL: one `read` step; the iteration over consecutive `read`s (an induction on `rrDist`, valid as long as no
+    other operation - remove, trigger - touches the object in between) is not stated as a multi-call theorem; the
+    trace-level clause is checked by the engine's oracle `C13:round-robin`. -/
+theorem round_robin_partial (cfg : Cfg) (tbl : List Nat) (ops : List Op) (pre post : List QSess) (q : QSess)
+    (j : Nat) (c : Cur) (f : FileDesc) (now : Nat) (ticks : List (Nat × Nat))
+    (hsess : (run (init cfg tbl) ops).sessions = pre ++ q :: post)
+    (hjs : q.slots[j]? = some (some c)) (hf : getF (run (init cfg tbl) ops).objs c.key = some f)
+    (hg : gateBlocked f now = false) (hs : c.enc.stopped = false) (hlt : c.enc.sent < f.nPk)
+    (p t i : Nat) (b : Bool) (hout : (read (run (init cfg tbl) ops) now ticks).2 = Out.pkt p t i b) :
+    p ∈ pre.map (fun x => x.prio) ∨
+    (p = q.prio ∧
+      (t = c.key ∨
+       (t ≠ c.key ∧ ∃ pre' q', (read (run (init cfg tbl) ops) now ticks).1.sessions = pre' ++ q' :: post ∧
+          pre'.length = pre.length ∧ q'.prio = q.prio ∧ q'.slots.length = q.slots.length ∧
+          rrDist q'.index j q.slots.length < rrDist q.index j q.slots.length ∧
+          q'.slots[j]? = some (some c) ∧
+          ∃ f', getF (read (run (init cfg tbl) ops) now ticks).1.objs c.key = some f' ∧ f'.info = f.info ∧
+            f'.nSym = f.nSym))) :=
+  read_rr cfg tbl ops pre post q j c f now ticks hsess hjs hf hg hs hlt p t i b hout
 
 /-! non-vacuity: two objects multiplexed in one queue with 2 slots, a third one waiting -/
 def cfg2 : Cfg := { mode := .full, fdtCarousel := .delay 1000, fdtDuration := 3600000000000, fdtStartId := 1, queues := [(0, 2)] }
@@ -195,12 +260,19 @@ example : ∃ q, (run (init cfg2 [1]) [.add (obj 3), .add (obj 3), .add (obj 3),
       (run (init cfg2 [1]) [.add (obj 3), .add (obj 3), .add (obj 3), .publish 5]).queue = some 1 := by
   refine ⟨_, rfl, ?_, ?_⟩ <;> decide
 
-/-- non-vacuity of `round_robin_partial`, second alternative: slot 1 (TOI 2) is due, the index points at slot 0
+/-- non-vacuity of `round_robin_queue` / `round_robin_partial`, second alternative: slot 1 (TOI 2) is due, the index points at slot 0
     (TOI 1, also due): the call returns TOI 1's packet and moves the index onto slot 1 -/
 example : ∃ q, (run (init cfg2 [1]) hist).sessions = [q] ∧ q.index = 0 ∧
     (q.slots.map (fun c => c.map (fun c => c.key))) = [some 1, some 2] ∧
     (∃ b, (readQueue q.slots.length (run (init cfg2 [1]) hist) q 5 []).2.2 = Out.pkt 0 1 1 b) ∧
     (readQueue q.slots.length (run (init cfg2 [1]) hist) q 5 []).2.1.index = 1 := by
   refine ⟨_, rfl, ?_, ?_, ⟨false, ?_⟩, ?_⟩ <;> decide
+
+/-- non-vacuity of `fifo_over_histories`: object 1 (start time 100) is passed over at instant 5 by object 2 -/
+def objLate : AddArgs := { prio := 0, nSym := 3, maxCount := 1, carousel := none, start := some 100, target := none, allowStop := false }
+example : (getNextFile (run (init cfg2 [1]) [.add objLate, .add (obj 3), .publish 5]) 0 5 []).2 = some 2 ∧
+    1 ∈ (run (init cfg2 [1]) [.add objLate, .add (obj 3), .publish 5]).queue ∧
+    fresh (run (init cfg2 [1]) [.add objLate, .add (obj 3), .publish 5]) 1 = true ∧
+    fresh (run (init cfg2 [1]) [.add objLate, .add (obj 3), .publish 5]) 2 = true := by decide
 
 end Flute.Props.C13
